@@ -73,9 +73,21 @@ pub fn panic_class(p: &str) -> String {
     let file = loc.split(':').next().unwrap_or(loc);
     out.push_str(file);
     out.push_str(": ");
-    // drop digits from message so "index 5 out of range for len 3" classes collapse
+    // drop digits from message so "index 5 out of range for len 3" classes collapse, and quoted
+    // input fragments (`...`) so that the class does not depend on the input text
     let mut last_hash = false;
+    let mut in_tick = false;
     for c in msg.chars() {
+        if c == '`' {
+            in_tick = !in_tick;
+            if in_tick {
+                out.push_str("`..`");
+            }
+            continue;
+        }
+        if in_tick {
+            continue;
+        }
         if c.is_ascii_digit() {
             if !last_hash {
                 out.push('#');
